@@ -156,7 +156,7 @@ def _impl(tier, seed, search):
                 if got != ref:
                     what = 'raises ' + got[1] if got[0] == 'exc' else 'gives a different result'
                     L.fail(f'class-form:{name}:{fname}', f'{name}: argument {pos} given as {fname} {what} (1-D array form: {"raises " + ref[1] if ref[0] == "exc" else "value"})', inp)
-            for k in (0, 1, 2, 5, 7):
+            for k in (1, 2, 5, 7):       # an empty sequence is a legitimate empty list of values for the classes
                 if k == spec[pos].n or (name in ('SE2(v3)', 'SE2(v2)') and k in (2, 3)) or (name in ('Twist3(v6)',) and k == 6): continue
                 if name in ('SO3.Exp',) and k in (1,): pass
                 args = [np.array(v, dtype=float) for v in base_vals]; args[pos] = list(g.normal(size=k))
